@@ -291,6 +291,11 @@ def components_come_from_split(ctx):
 def run(ctx):
     split_pieces_are_the_text_between_delimiters(ctx)
     P, cg = ctx.prog, ctx.cg
+    # 'paths are canonical': the constructors normalise the caller's text, not what is left of it after a move
+    members = [f for f in P.fns.values() if f.pq.startswith("Oomd::CgroupPath::") and f.file.startswith("oomd/")]
+    ctx.counters["cgroup_path_members"] = len(members)
+    ctx.floor("cgroup_path_members", 10, "member functions of CgroupPath")
+    no_use_after_move(ctx, members, "C16")
     from .C07 import can_run_is_the_pattern_loop
     can_run_is_the_pattern_loop(ctx)
     # precondition: plain getters
